@@ -56,6 +56,8 @@ func cornerProfile(r *rand.Rand) (gen.Profile, gen.DataCfg) {
 	p := gen.DefaultProfile()
 	p.EmptyAbstract = 0.7
 	p.Uploads = true
+	// object fields called `node`, arguments of a custom scalar type (literals with variables inside)
+	p.NodeNamedField, p.ScalarArgs, p.PArgs = 0.4, true, 0.4
 	return p, gen.DataCfg{Seed: uint64(r.Int63()), PNull: 10, ListMax: 2, Pool: 3}
 }
 
@@ -231,7 +233,7 @@ func (p c07) Gen(c *run.Ctx, idx int) (json.RawMessage, error) {
 	cs := c07Case{U: cu.spec, Canary: *canary}
 	validOp := func() *gen.Op {
 		pr := gen.DefaultOpProfile()
-		pr.Depth = 2
+		pr.Depth = 2 + r.Intn(3)
 		return genValidOp(r, cu.mono, pr)
 	}
 	goodBody := func() map[string]any {
